@@ -25,7 +25,7 @@ ASSUMPTIONS = [
 
 
 def bounds(tier):
-    return {"max_vertices": 4 if tier == "quick" else 5, "orders": ORDERS, "larger_graphs": "unlabelled trees + unicyclic on 6 vertices and trees on 7 (quick) / all connected on 6 and unicyclic on 7 (thorough): all pairs with exact oracle (7-vs-7 in thorough: a fixed quarter), isomorphic relabellings (all 720 for 6 vertices; rotations, reversal, transpositions for 7)",
+    return {"max_vertices": 4 if tier == "quick" else 5, "orders": ORDERS, "larger_graphs": "unlabelled connected graphs: all on 5 vertices, <= n+1 edges on 6, <= n edges on 7 (quick) / all on 5 and 6, <= n+2 edges on 7 (thorough): ALL pairs with the exact oracle (exhaustive branch-and-bound search), isomorphic relabellings (all n! for <= 5 vertices (<= 6 thorough); rotations, reversal, transpositions beyond)",
             "full_schedule_exploration_up_to_vertices": 3 if tier == "quick" else 4, "deviation_bound_otherwise": 1}
 
 
@@ -34,12 +34,12 @@ def graphs(nmax):
 
 
 def big_set(tier):
-    """Unlabelled trees and unicyclic graphs on 6 vertices + trees on 7 (quick); thorough adds every
-    connected graph on 6 vertices and the unicyclic graphs on 7.  Hub/spider/caterpillar shapes with
-    diameter >= 3 are where the curvature-based lower bound has something to prove."""
+    """Sparse unlabelled connected graphs on 5-7 vertices (trees, unicyclic, bicyclic: hub / spider /
+    caterpillar shapes with diameter >= 3 are where the curvature-based lower bound has something
+    to prove)."""
     if tier == "quick":
-        return mgh.atlas(6, 1) + mgh.atlas(7, 0)
-    return mgh.atlas(6) + mgh.atlas(7, 1)
+        return mgh.atlas(5) + mgh.atlas(6, 2) + mgh.atlas(7, 1)
+    return mgh.atlas(5) + mgh.atlas(6) + mgh.atlas(7, 3)
 
 
 def relabellings(n, full):
@@ -65,8 +65,6 @@ def cases(tier):
         yield {"kind": "iso", "i": i}
     for i in range(len(S)):
         for j in range(i, len(S)):
-            if tier == "thorough" and len(S[i]) == 7 and len(S[j]) == 7 and (i + j) % 4:
-                continue  # 7-vs-7 oracle is 0.8 s: a quarter of those pairs (fixed pattern, reported in bounds)
             yield {"kind": "big-pair", "i": i, "j": j}
 
 
@@ -124,7 +122,7 @@ def run_big(case, ctx):
     with _seam.installed():
         if case["kind"] == "iso":
             n = len(A)
-            for p in relabellings(n, full=(n <= 6)):
+            for p in relabellings(n, full=(n <= 5 or (n <= 6 and ctx.tier == "thorough"))):
                 B = mgh.relabel(A, p)
                 for X, Y in ((A, B), (B, A)):
                     _seam.cache = {}
